@@ -53,6 +53,9 @@ type Scenario struct {
 	ResetConfig string
 	// StrictPartials: the server answers "not found" for a partial tile whose complete tile exists.
 	StrictPartials bool
+	// WriteFails: the WriteConfig calls with these ordinal numbers (1-based, over all clients) fail with an
+	// I/O error instead of being performed.
+	WriteFails []int
 }
 
 // CurrentThread returns the id (1-based, in spawn order) of the top-level goroutine the caller descends
@@ -164,6 +167,10 @@ func ForkScenarios() []Scenario {
 		{Name: "fork-two-clients-second-lookup-same-head", Height: 2, Preload: pre(10, 11), Stored: true, Clients: 2, Fork: true, Threads: [][]Lookup{{L(0, 0, false)}, {L(1, 1, false), L(1, 10, false)}}},
 		{Name: "fork-two-clients-two-new-records-on-fork", Height: 2, Preload: pre(10, 11), Stored: true, Clients: 2, Fork: true, Threads: [][]Lookup{{L(0, 0, false)}, {L(1, 1, false), L(1, 3, false)}}},
 		{Name: "fork-two-clients-two-new-records-each-h1", Height: 1, Preload: pre(10), Stored: true, Clients: 2, Fork: true, Threads: [][]Lookup{{L(0, 0, false), L(0, 4, false)}, {L(1, 1, false), L(1, 3, false)}}},
+		// configuration writes that fail with an I/O error, one client facing an equivocating server (threads 1 and 3
+		// talk to one log, thread 2 to the other); thread 3 looks up a record that is already logged
+		{Name: "fork-one-client-first-write-fails", Height: 2, Preload: pre(10, 11, 12, 13), Stored: true, Clients: 1, Fork: true, ByThread: true, WriteFails: []int{1}, Threads: [][]Lookup{{L(0, 0, false)}, {L(0, 1, false)}, {L(0, 10, false)}}},
+		{Name: "fork-two-clients-second-write-fails", Height: 1, Preload: pre(10), Stored: true, Clients: 2, Fork: true, WriteFails: []int{2}, Threads: [][]Lookup{{L(0, 0, false), L(0, 10, false)}, {L(1, 1, false)}}},
 		{Name: "fork-two-clients-second-lookup-fork-only-record", Height: 1, Preload: pre(10), Stored: true, Clients: 2, Fork: true, Threads: [][]Lookup{{L(0, 0, false)}, {L(1, 1, false), {1, "fork.example/only", "v1.0.0"}}}},
 		{Name: "same-log-different-sizes", Height: 2, Preload: pre(10, 11, 12), Stored: true, Clients: 2, Threads: [][]Lookup{{L(0, 0, false), L(0, 1, false)}, {L(1, 3, false)}}},
 	}
@@ -210,6 +217,8 @@ type Env struct {
 	HeadsSeen      []int64 // sizes of tree heads carried by lookup responses
 	Served         []ServedHead
 	byThread       bool
+	writeFails     []int
+	nWrites        int
 	strictPartials bool
 	Security       []string
 	name           string
@@ -309,6 +318,12 @@ func (v view) WriteConfig(file string, old, new []byte) error {
 	v.rec("WriteConfig", file)
 	v.e.mu.Lock()
 	defer v.e.mu.Unlock()
+	v.e.nWrites++
+	for _, k := range v.e.writeFails {
+		if k == v.e.nWrites {
+			return fmt.Errorf("injected I/O error writing %s", file)
+		}
+	}
 	w := ConfigWrite{Client: v.id, Old: append([]byte(nil), old...), New: append([]byte(nil), new...)}
 	if !bytes.Equal(v.e.Config[file], old) {
 		w.Conflict = true
@@ -368,7 +383,7 @@ type Res struct {
 // done, point is the scheduling hook for external operations (nil when free-running).
 func Exec(sc Scenario, spawn func(func()), wait func(), point func(string)) (*Env, []Res) {
 	k := world.TheKeys()
-	e := &Env{Point: nil, Config: map[string][]byte{}, Cache: map[string][]byte{}, name: k.Name, byThread: sc.ByThread, strictPartials: sc.StrictPartials}
+	e := &Env{Point: nil, Config: map[string][]byte{}, Cache: map[string][]byte{}, name: k.Name, byThread: sc.ByThread, strictPartials: sc.StrictPartials, writeFails: sc.WriteFails}
 	nsrv := 1
 	if sc.Fork {
 		nsrv = 2
